@@ -738,6 +738,191 @@ theorem gen_rsample_core (mu : DMat n 1 α) (L : DMat n m α) (eps : DMat m 1 α
     rsampleViewBatch (bs ++ [k]) = bs := by
   refine ⟨by simp [rsampleCore, rsample, add_comm], by simp [rsampleSampleShape], rfl, by simp [rsampleViewBatch]⟩
 
+/-- **Index map of the two generated `permute`s, for every batch rank** (`b` = multi-index over the batch dimensions, any
+length): the permuted base samples at `(b, j, s)` are the viewed base samples at `(s, b, j)`, and the permuted result at
+`(s, b, i)` is the un-permuted result `root @ eps + loc` at `(b, i, s)`.  With `gen_rsample_core` (one batch element, one
+sample): entry `(s, b, i)` of `rsample(base_samples)` is `loc[b, i] + Σ_j root[b, i, j] · eps[s, b, j]`, whatever the number
+of batch dimensions.  (Two `transpose`s instead of the second `permute` agree with it for ≤ 1 batch dimension only.) -/
+theorem gen_rsample_entry_map (b : List Nat) (s : Nat) :
+    (∀ j, PermReads (rsamplePermIn (b.length + 1)) (b ++ [j, s]) (s :: (b ++ [j]))) ∧
+    (∀ i, PermReads (rsamplePermOut (b.length + 1)) (s :: (b ++ [i])) (b ++ [i, s])) := by
+  constructor
+  · intro j
+    refine ⟨by simp [rsamplePermIn], by simp [rsamplePermIn], ?_⟩
+    intro a ha
+    have hlen : (rsamplePermIn (b.length + 1)).length = b.length + 2 := by simp [rsamplePermIn]
+    rw [hlen] at ha
+    unfold rsamplePermIn
+    by_cases hlast : a = b.length + 1
+    · subst hlast
+      simp [List.getD_eq_getElem?_getD]
+    · have ha' : a < b.length + 1 := by omega
+      have h1 : ((List.range' 1 (b.length + 1 + 1 - 1)) ++ [0]).getD a 0 = a + 1 := by
+        simp [List.getD_eq_getElem?_getD, List.getElem?_append, ha']
+        omega
+      rw [h1]
+      rw [List.getD_cons_succ, getD_append_two_left b j s a (by omega)]
+  · intro i
+    refine ⟨by simp [rsamplePermOut], by simp [rsamplePermOut], ?_⟩
+    intro a ha
+    have hlen : (rsamplePermOut (b.length + 1)).length = b.length + 2 := by simp [rsamplePermOut]
+    rw [hlen] at ha
+    unfold rsamplePermOut
+    cases a with
+    | zero => simp [List.getD_eq_getElem?_getD]
+    | succ c =>
+      have hc : c < b.length + 1 := by omega
+      have h1 : ([(b.length + 1 + 1) - 1] ++ (List.range' 0 (b.length + 1 - 0))).getD (c + 1) 0 = c := by
+        simp [List.getD_eq_getElem?_getD, hc]
+      rw [h1, List.getD_cons_succ, getD_append_two_left b i s c (by omega)]
+
+/-- Both generated argument lists hit every axis `0 … d`, for every rank … -/
+theorem gen_rsample_perms_onto (d a : Nat) (ha : a < d + 1) :
+    (∃ j, j < (rsamplePermIn d).length ∧ (rsamplePermIn d).getD j 0 = a) ∧
+    (∃ j, j < (rsamplePermOut d).length ∧ (rsamplePermOut d).getD j 0 = a) := by
+  constructor
+  · unfold rsamplePermIn
+    cases a with
+    | zero => exact ⟨d, by simp, by simp [List.getD_eq_getElem?_getD]⟩
+    | succ c =>
+      refine ⟨c, by simp; omega, ?_⟩
+      have hc : c < d := by omega
+      simp [List.getD_eq_getElem?_getD, List.getElem?_append, hc]
+      omega
+  · unfold rsamplePermOut
+    by_cases h : a = d
+    · subst h; exact ⟨0, by simp, by simp [List.getD_eq_getElem?_getD]⟩
+    · have hlt : a < d := by omega
+      exact ⟨a + 1, by simp; omega, by simp [List.getD_eq_getElem?_getD, hlt]⟩
+
+/-- … so `PermReads` determines the multi-index that is read: the index map of `gen_rsample_entry_map` is the only one. -/
+theorem permReads_unique (perm o inp inp' : List Nat)
+    (hp : ∀ a, a < perm.length → ∃ j, j < perm.length ∧ perm.getD j 0 = a)
+    (h : PermReads perm o inp) (h' : PermReads perm o inp') : inp = inp' := by
+  obtain ⟨l1, _, r1⟩ := h
+  obtain ⟨l2, _, r2⟩ := h'
+  apply List.ext_getElem (by omega)
+  intro a ha ha'
+  obtain ⟨j, hj, hja⟩ := hp a (by omega)
+  have e1 := r1 j hj
+  have e2 := r2 j hj
+  rw [hja] at e1 e2
+  simp only [List.getD_eq_getElem?_getD, List.getElem?_eq_getElem ha, List.getElem?_eq_getElem ha', Option.getD_some] at e1 e2
+  rw [e1, e2]
+
+/-- two batch dimensions, sample index 7: result entry `(7, 1, 2, 5)` reads `(root @ eps + loc)[1, 2, 5, 7]` -/
+example : PermReads (rsamplePermOut 3) [7, 1, 2, 5] [1, 2, 5, 7] := by decide
+example : permuteIdx (rsamplePermOut 3) [7, 1, 2, 5] = [1, 2, 5, 7] := by decide
+
+/-! ### (f) `__init__`: batch broadcast of mean and covariance (LinearOperator branch) -/
+
+/-- **`__init__` stores mean and covariance with the broadcast batch shape**: for every pair of batch shapes that
+broadcasts (any ranks, size-1 dimensions anywhere — `Bcast.broadcastShapes` is torch's right-aligned rule) the generated
+conditional `expand`s leave `self.loc` with shape `broadcast ++ [n]` and `self._covar` with shape `broadcast ++ [n1, n2]`, and
+the batch shape handed to `Distribution.__init__` is the same `broadcast`. -/
+theorem gen_init_broadcast (mb cb bs : List Nat) (n n1 n2 : Nat) (hb : broadcastShapes mb cb = some bs) :
+    initBatchShape (mb ++ [n]) (cb ++ [n1, n2]) = some bs ∧
+    initShapes (mb ++ [n]) (cb ++ [n1, n2]) = some (bs ++ [n], bs ++ [n1, n2]) ∧
+    initShapes (mb ++ [n]) (cb ++ [n1, n2]) = initShapesSpec (mb ++ [n]) (cb ++ [n1, n2]) ∧
+    initDistBatch (mb ++ [n]) (cb ++ [n1, n2]) bs = bs := by
+  have hB : initBatchShape (mb ++ [n]) (cb ++ [n1, n2]) = some bs := by
+    unfold initBatchShape; rw [take_append_one, take_append_two, hb]
+  have hS : initShapes (mb ++ [n]) (cb ++ [n1, n2]) = some (bs ++ [n], bs ++ [n1, n2]) := by
+    unfold initShapes; rw [hB]
+    simp only [Option.map_some, Option.some.injEq, Prod.mk.injEq]
+    constructor
+    · unfold initLocShape initEventShape
+      rw [take_append_one, drop_append_one]
+      by_cases h : mb = bs
+      · subst h; simp
+      · simp [h]
+    · unfold initCovShape
+      rw [take_append_two, drop_append_two]
+      by_cases h : cb = bs
+      · subst h; simp
+      · simp [h]
+  refine ⟨hB, hS, ?_, rfl⟩
+  rw [hS]; unfold initShapesSpec
+  rw [take_append_one, take_append_two, drop_append_one, drop_append_two, hb]; rfl
+
+/-- When the batch shapes do not broadcast, nothing is stored (`torch.broadcast_shapes` raises). -/
+theorem gen_init_reject (mb cb : List Nat) (n n1 n2 : Nat) (hb : broadcastShapes mb cb = none) :
+    initShapes (mb ++ [n]) (cb ++ [n1, n2]) = none := by
+  unfold initShapes initBatchShape; rw [take_append_one, take_append_two, hb]; rfl
+
+example : broadcastShapes [3] [1] = some [3] := by decide
+example : broadcastShapes [2, 3] [2, 1] = some [2, 3] := by decide
+example : broadcastShapes [1, 3] [2, 1] = some [2, 3] := by decide
+example : broadcastShapes [2] [3] = none := by decide
+example : initShapes [3, 4] [1, 4, 4] = some ([3, 4], [3, 4, 4]) := by decide
+
+/-! ### (g) the two recorded defects of `__getitem__`, as theorems about the generated code
+
+Both statements stop building when the source is repaired (the generated `getitemCov Br.advanced` / `getitemPre` change), so
+the known-finding entries cannot outlive the defect. -/
+
+/-- **Known finding `getitem:advanced-batch-event-pairing`**: with an index list `bs` on the batch dimension and an index
+list `es` on the event dimension the generated advanced branch `cov[(*rest_idx, last_idx, :)][..., last_idx]` returns the
+matrix `f i j = Σ_{bs_i}[es_i, es_j]`; it is the covariance of the selected components `(bs_i, es_i)` — independent batch
+members — exactly at the entries whose two rows come from the same batch member or where that entry of `Σ_{bs_i}` vanishes. -/
+theorem gen_getitem_paired_advanced_except_known {β : Type} [OfNat β 0] (cov : Nat → Nat → Nat → β) (bs es : List Nat) :
+    ∃ f, covSelPaired cov bs es (getitemCov Br.advanced) = some f ∧
+      (∀ i j, f i j = cov (bs.getD i 0) (es.getD i 0) (es.getD j 0)) ∧
+      (∀ i j, f i j = pairedMarginal cov bs es i j ↔
+        (bs.getD i 0 = bs.getD j 0 ∨ cov (bs.getD i 0) (es.getD i 0) (es.getD j 0) = 0)) := by
+  refine ⟨fun i j => cov (bs.getD i 0) (es.getD i 0) (es.getD j 0), rfl, fun _ _ => rfl, ?_⟩
+  intro i j
+  unfold pairedMarginal
+  by_cases h : bs.getD i 0 = bs.getD j 0
+  · rw [if_pos h]; exact ⟨fun _ => Or.inl h, fun _ => rfl⟩
+  · rw [if_neg h]; exact ⟨fun hh => Or.inr hh, fun hh => hh.resolve_left h⟩
+
+/-- … and a kernel-checked counterexample: two batch members with symmetric covariances, `d[[0, 1], [1, 0]]`: the returned
+matrix is not symmetric and differs from the covariance of the selected components. -/
+theorem gen_getitem_paired_advanced_counterexample :
+    ∃ (cov : Nat → Nat → Nat → ℚ) (bs es : List Nat) (f : Nat → Nat → ℚ),
+      (∀ b r c, cov b r c = cov b c r) ∧ bs.length = es.length ∧
+      covSelPaired cov bs es (getitemCov Br.advanced) = some f ∧
+      f 0 1 ≠ f 1 0 ∧ f 0 1 ≠ pairedMarginal cov bs es 0 1 := by
+  refine ⟨fun b r c => if r = c then 2 else (b + 1 : ℚ), [0, 1], [1, 0], _, ?_, rfl, rfl, ?_, ?_⟩
+  · intro b r c
+    by_cases h : r = c
+    · simp [h]
+    · have h' : ¬ c = r := fun hh => h hh.symm
+      simp [h, h']
+  · norm_num
+  · norm_num [pairedMarginal]
+
+/-- **Known finding `getitem:multiple-ellipsis`**: an index with a second ellipsis, `(..., x, ...)`, of length `≤ mean.dim()`
+is not rejected by the generated pre-pass (for any number `ne` of ellipses), is dispatched to the ellipsis branch, and that
+branch `cov[rest_idx]` with `rest_idx = (..., x)` reads all rows but only the columns selected by `x` — the marginal
+(`mean[..., x, ...] = mean[..., x]`) needs rows = columns = the positions of `x`; they agree only when `x` selects everything. -/
+theorem gen_getitem_multiple_ellipsis_except_known (n l d ne : Nat) (x : Idx) (sel : Sel) (hl : l ≤ d)
+    (hx : normDim n x = some sel) :
+    getitemPre l d ne = some l ∧
+    getitemDispatch l d true Idx.ellipsis = Br.ellipsis ∧
+    covSelPositionsRestEllipsis n x (getitemCov (getitemDispatch l d true Idx.ellipsis)) =
+      some (Sel.keep (List.range n), sel) ∧
+    ((Sel.keep (List.range n), sel) = (sel, sel) ↔ sel = Sel.keep (List.range n)) := by
+  have hd : getitemDispatch l d true Idx.ellipsis = Br.ellipsis := by
+    unfold getitemDispatch
+    have h2 : ¬ ((l : Int) > (d : Int)) := by omega
+    simp [h2, Idx.isInt, Idx.isSlice, Idx.isEllipsis]
+  refine ⟨?_, hd, ?_, ?_⟩
+  · unfold getitemPre
+    have : ¬ (((l : Int) > (d : Int)) ∧ (ne > 0)) := by omega
+    rw [if_neg this]
+  · rw [hd]
+    simp [getitemCov, covSelPositionsRestEllipsis, hx]
+  · constructor
+    · intro h; exact (Prod.mk.inj h).1.symm
+    · intro h; rw [h]
+
+/-- `d[..., 1:, ...]` on a distribution with two batch dimensions and `n = 4`: 4 rows, 3 columns. -/
+example : normDim 4 (Idx.slice (some 1) none 1) = some (Sel.keep [1, 2, 3]) := by decide +kernel
+example : covSelPositionsRestEllipsis 4 (Idx.slice (some 1) none 1) (getitemCov (getitemDispatch 3 3 true Idx.ellipsis)) =
+    some (Sel.keep [0, 1, 2, 3], Sel.keep [1, 2, 3]) := by decide +kernel
+
 end gen
 
 end C10
